@@ -254,10 +254,30 @@ def case_dimname(case):
         raise Violation(f"standard_value_differs:{name}:coherent", f"1 {name} -> {q!r} in SI base units; the SI units with special names are coherent (factor 1)")
 
 
+def case_refused_edit(case):
+    """a registry that refuses redefinitions (on_redefinition='raise', the policy of the application registry) still carries the standard values after
+    an attempt to replace one of them was refused"""
+    import pint
+
+    ureg = pint.UnitRegistry(non_int_type=Fraction, on_redefinition="raise")
+    for line in case["lines"]:
+        s_, r_ = attempt(ureg.define, line)
+        if s_ == "ok":
+            raise Violation("standard_unit_redefined_under_policy_raise", f"define({line!r}) was accepted by a registry built with on_redefinition='raise'")
+    for spelling, target, want in (("yard", "meter", Fraction(9144, 10000)), ("foot", "meter", Fraction(3048, 10000)), ("mile", "meter", Fraction(1609344, 1000)), ("lb", "kilogram", Fraction(45359237, 100000000)),
+                                   ("pound", "kilogram", Fraction(45359237, 100000000)), ("inch", "meter", Fraction(254, 10000)), ("ounce", "kilogram", Fraction(45359237, 1600000000))):
+        s_, q = attempt(lambda: ureg.Quantity(1, spelling).to(target))
+        if s_ == "err" or Fraction(q.magnitude) != want:
+            raise Violation(f"standard_value_differs:{spelling}:after_refused_redefinition", f"after the refused {case['lines']}: 1 {spelling} -> {q!r} {target}, standard {want}")
+
+
 def run_table(task, tier, seed, col):
     if task["shard"] == 0:
         consistency()
         R = env.R()
+        for lines in (["yard = 0.9 * meter"], ["yard = 0.9 * meter = yd"], ["livre = 0.5 * kilogram = lb"], ["inch = 2.5 * centimeter = in"], ["@alias meter = yard"]):
+            col.case(("refused", lines[0]), True, sample={"lines": lines}, cls="refused_edit")
+            col.run_case(case_refused_edit, {"lines": lines})
         from ..oracle.dimtable import NAMED_DIMS, NAMED_UNITS
 
         for name in list(NAMED_DIMS) + list(NAMED_UNITS):
@@ -298,6 +318,8 @@ def replay(sub, case):
         return case_named_prefixed(case)
     if set(case) == {"name"}:
         return case_dimname(case)
+    if set(case) == {"lines"}:
+        return case_refused_edit(case)
     # history-sensitive defects (a factor cached under a wrong key) need the table to have been walked first
     from ..core import Violation as _V
     for r in load_table():
